@@ -178,6 +178,7 @@ def run_check(spec, tier, seed, replay=None):
     traces_validated = 0
     unmodelled = 0
     hist = {}
+    outcomes = {}
     diffs_all = []
     monitor_hits = []
     driver_ok = okl
@@ -210,6 +211,18 @@ def run_check(spec, tier, seed, replay=None):
                     for l in sc:
                         v = brv.op_part(l).split(" ", 1)[0]
                         hist[v] = hist.get(v, 0) + 1
+                        # outcome kinds of the implementation (verdicts, results, error classes), per op kind
+                        ob = l.split(" => ", 1)[1] if " => " in l else ""
+                        for tok in ob.split(" ")[:3]:
+                            if tok[:2] in ("v=", "r=") or tok.startswith("sync=") or tok.startswith("res="):
+                                k = v + ":" + tok.split(":", 1)[0][:40]
+                                outcomes[k] = outcomes.get(k, 0) + 1
+                                break
+                        if " ev=[" in ob:
+                            n = ob.split(" ev=[", 1)[1].split("]", 1)[0]
+                            n = 0 if not n else n.count(",") + 1
+                            k = "announced:" + ("0" if n == 0 else "1" if n == 1 else "2-5" if n <= 5 else "6+")
+                            outcomes[k] = outcomes.get(k, 0) + 1
                     if st.nontrivial is None or st.nontrivial(sc):
                         distinct.add(st.name + ":" + brv.script_digest(sc))
                 if scripts and len(samples) < 3:
@@ -299,7 +312,7 @@ def run_check(spec, tier, seed, replay=None):
         leanchecker=leanchecker,
         evaluations=max(evaluations, 0), distinct_nontrivial=len(distinct), rule=spec.rule,
         traces_validated_against_impl=traces_validated, samples=samples or ["<no scripts run>"],
-        op_histogram=hist, scripts_partly_unmodelled=unmodelled, facts_changed=changed, modelled_functions_changed=fp_changed,
+        op_histogram=hist, outcome_histogram=dict(sorted(outcomes.items())), scripts_partly_unmodelled=unmodelled, facts_changed=changed, modelled_functions_changed=fp_changed,
         known_findings_replayed=len(known_printed), broken_obligations=broken[:10], notes=notes,
         partial=spec.partial_note,
     )
